@@ -608,7 +608,7 @@ pub fn exec(sc: &mut dyn ScopeOps, ctx: &mut Ctx<'_>) -> Flow {
                             std::panic::panic_any(UnwindMarker);
                         }
                     }),
-                    "bmws" => sc.with_bmws(u(&args, "n"), &mut |inner| {
+                    "bmws" | "bvws" => sc.with_bmws(u(&args, "n"), kind == "bvws", &mut |inner| {
                         ctx.record(i, Some(inner), Ctx::obs("ok"));
                         flow = exec(inner, ctx);
                         if let Flow::Exit { unwind: true } = flow {
